@@ -2,19 +2,19 @@ CHECKS = [
     {
         "id": "C01", "engine": "E1", "design_ref": "DESIGN.md §5 C01",
         "technique": "bounded exhaustive enumeration of (type term, options, datum) against an independent reference model",
-        "text": "Every type of the bounded grammar (all ctor/shape pairs, nesting 2) x every datum at <=2 deviations from a valid skeleton x option vectors is executed on the real deserialize and compared (verdict and typed image with runtime classes) with an independent reference model of the documented data model; exhaustive within the stated bounds, nothing sampled.",
+        "text": "Every type of the bounded grammar (all ctor/shape pairs, nesting 2) x every datum at <=2 deviations from a valid skeleton x option vectors is executed on the real deserialize and compared (verdict and typed image with runtime classes) with an independent reference model of the documented data model; exhaustive within the stated bounds, nothing sampled. The grammar covers 18 unary constructors (incl. mappings with Enum / Literal keys) and 45 object shapes (incl. inheritance, hand-written __init__, inferred pattern properties, recursive types through Optional / list / dict / fixed-size tuple / serialized methods, constraints on back-references and on literal / enum positions).",
         "note": "Trusted: the reference model (vf/refmodel/deser.py, written from the docs, no code shared with apischema); cases the docs do not decide are excluded and counted. Bounds: nesting depth 2, <=2 deviations, atom pools listed in evidence.",
     },
     {
         "id": "C02", "engine": "E1", "design_ref": "DESIGN.md §5 C02",
         "technique": "bounded exhaustive enumeration of rejected (type, options, datum with <=3 independent deviations) against a reference error model + compositional self-check + cross-interpreter digest",
         "text": "Every rejected datum of the C01 space (k<=2, k<=3 at level<=1 in thorough) is executed; the multiset of (loc, message) is compared with the reference model, list order, from_errors round trip and the compositional law errors(parent)|child == errors(child) are checked on the real code, under the default and a fully customised settings.errors catalogue; a digest of all error lists is compared between two interpreters with different hash seeds.",
-        "note": "Trusted: reference error model (vf/refmodel/deser.py). Message order inside one location is compared as a multiset (the by-type shortcut legitimately orders them differently). An item whose key and value are both invalid is excluded.",
+        "note": "Trusted: reference error model (vf/refmodel/deser.py). Message order inside one location is compared as a multiset (the by-type shortcut legitimately orders them differently).",
     },
     {
         "id": "C03", "engine": "E1", "design_ref": "DESIGN.md §5 C03",
         "technique": "bounded exhaustive enumeration: every wild atom substituted at every position of every skeleton x 16 option vectors; crash / purity oracle",
-        "text": "For every type of the grammar, every skeleton datum and every single substitution of 51 wild / JSON atoms at every position is deserialized under coerce x additional_properties x fall_back_on_default x no_copy; any exception other than ValidationError, a non-computable or non-JSON-serialisable .errors, a modified input (structure and container identities) or modified user classes is a violation; 50/400/900-deep data for recursive shapes.",
+        "text": "For every type of the grammar, every skeleton datum and every single substitution of 51 wild / JSON atoms at every position is deserialized under coerce x additional_properties x fall_back_on_default x no_copy; any exception other than ValidationError, a non-computable or non-JSON-serialisable .errors, a modified input (structure and container identities) or modified user classes is a violation; 50/400/900-deep data for recursive shapes. Also explored: every standard-library type with a built-in conversion (bare and under 9 contexts), sets of Any / of unions with unhashable images, float multipleOf, and a world of discriminated / tagged unions fed with every (body, discriminator value, mapping class of the datum incl. defaultdict / __missing__ dicts / OrderedDict / MappingProxyType / UserDict).",
         "note": "Bounds: one wild substitution per datum, nesting 2; recursion limit 1000. Known finding: RecursionError on 400/900-deep data of recursive types (listed in known_findings.json).",
     },
     {
@@ -32,25 +32,25 @@ CHECKS = [
     {
         "id": "C15", "engine": "E2", "design_ref": "DESIGN.md §3, §5 C15",
         "technique": "explicit-state breadth-first search to a fixpoint over operation histories on a real object, canonical state = (class, field values, tracked set), invariant checked in every state against a set model",
-        "text": "For 11 with_fields_set classes (defaults, default_factory, default_as_set, init=False, InitVar, __post_init__ assignment, decorated/undecorated inheritance, aliases) every initial state (constructor with every argument subset, positional and keyword; deserialize with every key subset) and every sequence of set / unset / overwrite / assign / replace / dataclasses.replace operations is explored breadth-first on real objects until no new canonical state appears; fields_set, is_set, serialize() and serialize(exclude_unset=False) are compared with a set model in every state.",
+        "text": "For 11 with_fields_set classes (defaults, default_factory, default_as_set, init=False, InitVar, __post_init__ assignment, decorated/undecorated inheritance, aliases) every initial state (constructor with every argument subset, positional and keyword; deserialize with every key subset) and every sequence of set / unset / overwrite / assign / replace / dataclasses.replace operations is explored breadth-first on real objects until no new canonical state appears; fields_set, is_set, serialize() and serialize(exclude_unset=False) are compared with a set model in every state. Pool extended with frozen, keyword-only-field and inherited keyword-only classes; the object a replace() was taken from stays alive as a second object with its own model and operations.",
         "note": "Values from a 2-element domain per field; the canonical state determines all futures so merging is sound; depth cap reported if hit.",
     },
     {
         "id": "C13", "engine": "E1", "design_ref": "DESIGN.md §5 C13",
         "technique": "bounded exhaustive enumeration of unions (all ordered pairs of a 38-alternative pool, all 3-/4-permutations of a colliding core) x data x coercion with a self-composition oracle on the real code",
-        "text": "Every union is deserialized on the union of its alternatives' data (skeletons, <=1-deviation mutants, universal atoms), with and without coercion; the alternatives are deserialized individually by the real code and the union must accept iff one accepts, with a value == the first accepting one (class of some accepting alternative); serialization must equal the first class-matching alternative's. Discriminated unions (Annotated default/explicit/partial/non-overriding mapping, literal and str discriminator fields, inherited discriminator, TypedDict) are enumerated over every mapping key x body, with round trip; TaggedUnion over every tag subset.",
+        "text": "Every union is deserialized on the union of its alternatives' data (skeletons, <=1-deviation mutants, universal atoms), with and without coercion; the alternatives are deserialized individually by the real code and the union must accept iff one accepts, with a value == the first accepting one (class of some accepting alternative); serialization must equal the first class-matching alternative's. Discriminated unions (Annotated default/explicit/partial/non-overriding mapping, literal and str discriminator fields, inherited discriminator, TypedDict) are enumerated over every mapping key x body, with round trip; TaggedUnion over every tag subset. Data include instances of subclasses of dict / list / str / int / float; discriminated unions whose alternatives have properties / pattern-properties fields.",
         "note": "Oracle is the implementation itself on the alternatives (C01 vouches for them). Every union is checked from reset caches because Union[A,B]==Union[B,A] for typing (known finding of C09).",
     },
     {
         "id": "C14", "engine": "E1", "design_ref": "DESIGN.md §5 C14",
         "technique": "bounded exhaustive enumeration of (type, datum enriched with coercible strings, coercion mode) with a relational oracle (strict vs coerce) and a reference model extended with the documented coercion table",
-        "text": "For every type of the grammar and every datum (C01 data plus numeric strings, the 14 boolean words in three casings, near-misses, '' and whitespace at every position): strict-accepted implies coerce-accepted with an equal typed value (union-free, no fall-back field); the coerce=True outcome equals the reference model extended with the documented table at primitive positions only, so acceptance through any other route is flagged; the settings route equals the parameter route; wrong-typed and raising custom coercers give exactly the strict outcome, a right-typed one the model's.",
+        "text": "For every type of the grammar and every datum (C01 data plus numeric strings, the 14 boolean words in three casings, near-misses, '' and whitespace at every position): strict-accepted implies coerce-accepted with an equal typed value (union-free, no fall-back field); the coerce=True outcome equals the reference model extended with the documented table at primitive positions only, so acceptance through any other route is flagged; the settings route equals the parameter route; wrong-typed and raising custom coercers give exactly the strict outcome, a right-typed one the model's. Plus a world of discriminated and recursive discriminated unions (strict-accepted data stay accepted with equal values under coerce=True and custom coercers).",
         "note": "Trusted: reference model + the table as stated in the property (bool is not a number). Types with fall_back_on_default fields are exempt from the equal-value clause (an invalid field is accepted as its default in strict mode).",
     },
     {
         "id": "C04", "engine": "E1", "design_ref": "DESIGN.md §5 C04",
         "technique": "bounded exhaustive enumeration of (type term, model-built value, serialization options) against an independent reference image model with a single omission formula",
-        "text": "Every type of the grammar (with serialized methods / properties, serialization_if / serialization_default, none_as_undefined, Undefined defaults, with_fields_set shapes) x every value built from the model's typed images of all skeleton data plus Undefined / None / default-equal / unset variants x exclude_none x exclude_defaults x exclude_unset x additional_properties x 3 aliasers is serialized by the real code; the output must contain only exact JSON classes and equal the reference image; check_type / fall_back_on_any must not change it; serialize(v) must equal serialize(type(v), v).",
+        "text": "Every type of the grammar (with serialized methods / properties, serialization_if / serialization_default, none_as_undefined, Undefined defaults, with_fields_set shapes) x every value built from the model's typed images of all skeleton data plus Undefined / None / default-equal / unset variants x exclude_none x exclude_defaults x exclude_unset x additional_properties x 3 aliasers is serialized by the real code; the output must contain only exact JSON classes and equal the reference image; check_type / fall_back_on_any must not change it; serialize(v) must equal serialize(type(v), v). Values include tracked fields (required ones too) unset after construction.",
         "note": "Trusted: vf/refmodel/ser.py (written from the docs). Values are of their type. A str value under Union[Sequence[...], str] is excluded (str is a Python Sequence; dispatch undecided by the docs).",
     },
     {
@@ -62,61 +62,61 @@ CHECKS = [
     {
         "id": "C08", "engine": "E1", "design_ref": "DESIGN.md §5 C08",
         "technique": "bounded exhaustive enumeration of (type, datum / value) x the option lattice with a differential oracle against the default option vector, on the real code",
-        "text": "Deserialization: every type x every datum at <=1 deviation x no_copy x override_dataclass_constructors x {deserialize(), precomputed method}: same verdict, same typed value, identical errors; no shared mutable container with the input when no_copy=False; input never modified. Serialization: every model-built value x no_copy x check_type x {function, method} x all 32 PassThroughOptions flag vectors (+ types as a set and as a predicate): equal to the default output after completing passed-through leaves with serialization_default.",
+        "text": "Deserialization: every type x every datum at <=1 deviation x no_copy x override_dataclass_constructors x {deserialize(), precomputed method}: same verdict, same typed value, identical errors; no shared mutable container with the input when no_copy=False; input never modified. Serialization: every model-built value x no_copy x check_type x {function, method} x all 32 PassThroughOptions flag vectors (+ types as a set and as a predicate): equal to the default output after completing passed-through leaves with serialization_default. Deserialization pass_through (a predicate and a class set) x no_copy is explored on JSON data (identical results required); the no-sharing clause of no_copy=False is checked on Any positions too.",
         "note": "quick = level<=1 types; thorough adds the level-2 pairs. Known finding: pass-through dataclass holding a flattened field raises TypeError.",
     },
     {
         "id": "C06", "engine": "E1", "design_ref": "DESIGN.md §5 C06",
         "technique": "bounded exhaustive enumeration of (type, options, datum) with an independent JSON Schema validator (jsonschema, draft 2020-12) as oracle for the schema side",
-        "text": "For every type of the grammar, additional_properties x aliaser x all_refs and every datum at <=2 deviations inside the common semantic domain stated by the property, the verdict of jsonschema.Draft202012Validator on deserialization_schema(T, ...) must equal the verdict of the real deserialize; the schema must also pass check_schema; disagreements are classified by direction and deciding keyword.",
+        "text": "For every type of the grammar, additional_properties x aliaser x all_refs and every datum at <=2 deviations inside the common semantic domain stated by the property, the verdict of jsonschema.Draft202012Validator on deserialization_schema(T, ...) must equal the verdict of the real deserialize; the schema must also pass check_schema; disagreements are classified by direction and deciding keyword. A world of discriminated unions / classes is explored too (known finding: their schemas rely on the OpenAPI discriminator keyword).",
         "note": "Trusted: jsonschema 4.26. Excluded (documented): fall_back_on_default fields (lenient parsing of invalid fields), keys matching two overlapping properties(pattern) fields (first-match vs all-match). Known findings: flattened objects' schema; nested flattened schema generation.",
     },
     {
         "id": "C07", "engine": "E1", "design_ref": "DESIGN.md §5 C07",
         "technique": "bounded exhaustive enumeration of (type, value, global exclude settings, aliaser, additional_properties) with jsonschema as oracle",
-        "text": "Every model-built value of every type of the grammar is serialized under settings.serialization.exclude_defaults x exclude_none (global) x 3 aliasers x additional_properties and validated by jsonschema against serialization_schema generated under the same settings.",
+        "text": "Every model-built value of every type of the grammar is serialized under settings.serialization.exclude_defaults x exclude_none (global) x 3 aliasers x additional_properties and validated by jsonschema against serialization_schema generated under the same settings. Plus source worlds: converted types (registered / dynamic / field conversions, generic conversions, collection-like classes) and serialized methods registered after a first use.",
         "note": "exclude_unset=False (no field dropped by unset-tracking, as the property requires). Same known findings as C06 for flattened objects.",
     },
     {
         "id": "C17", "engine": "E1", "design_ref": "DESIGN.md §5 C17",
         "technique": "bounded exhaustive enumeration of (type, all_refs, ref_factory, version, with_schema, entry point) with meta-schema validation, $ref closure walk and a reference-count model over the type term",
-        "text": "For every type of the grammar and 8 source worlds (type_name string / factory / None, NewType and Annotated names, recursion, name clash, nameless recursion) x all_refs x {default, prefix} ref_factory x 5 versions x with_schema x {deserialization, serialization}: generation terminates (watchdog), the document validates against the meta-schema of the dialect it declares, every $ref (and discriminator mapping target) resolves to a definition (inline or definitions_schema), the set of definitions equals the set predicted by a reference-count model on the type term, definitions_schema equals the inline $defs, clashes / nameless recursion are refused.",
+        "text": "For every type of the grammar and 8 source worlds (type_name string / factory / None, NewType and Annotated names, recursion, name clash, nameless recursion) x all_refs x {default, prefix} ref_factory x 5 versions x with_schema x {deserialization, serialization}: generation terminates (watchdog), the document validates against the meta-schema of the dialect it declares, every $ref (and discriminator mapping target) resolves to a definition (inline or definitions_schema), the set of definitions equals the set predicted by a reference-count model on the type term, definitions_schema equals the inline $defs, clashes / nameless recursion are refused. Oracles added: no non-productive reference cycle (definitions referring to each other through $ref / allOf / anyOf / oneOf only), definitions_schema of both sides equal to the one-sided definitions; worlds for discriminated parents / children in both orders, serialized methods (recursive, converted), spellings of builtin containers, same name across the two sides.",
         "note": "Trusted: jsonschema meta-schemas. Unreferenced definitions under all_refs=True are counted, not flagged (the property does not forbid them). Nested flattened types skipped (known finding of C06).",
     },
     {
         "id": "C18", "engine": "E1", "design_ref": "DESIGN.md §5 C18",
         "technique": "bounded exhaustive enumeration of (type, target dialect, datum) with the validators of each dialect as oracles + exhaustive vocabulary walk of every converted schema",
-        "text": "For every type of the grammar, both schema functions and the four target versions: the converted schema validated by the target dialect's own validator (Draft201909 / Draft7; OpenAPI 3.0 through its documented mapping; $refs against definitions_schema of the same version) accepts exactly the data (<=1 deviation enumeration) the 2020-12 schema accepts; a recursive walk finds no keyword outside the target vocabulary and only the target reference prefix, at any depth and in the definitions.",
+        "text": "For every type of the grammar, both schema functions and the four target versions: the converted schema validated by the target dialect's own validator (Draft201909 / Draft7; OpenAPI 3.0 through its documented mapping; $refs against definitions_schema of the same version) accepts exactly the data (<=1 deviation enumeration) the 2020-12 schema accepts; a recursive walk finds no keyword outside the target vocabulary and only the target reference prefix, at any depth and in the definitions. Worlds: discriminated classes (definitions carrying dependentRequired / prefixItems / const), exclusive bounds, and global serialization settings (pass_through, exclude_*, check_type) that must not leak into the conversion.",
         "note": "Known findings: unevaluatedProperties in draft-07 (flattened objects), {'type': 'null'} in OpenAPI 3.0 for a None-typed position.",
     },
     {
         "id": "C16", "engine": "E1", "design_ref": "DESIGN.md §5 C16",
         "technique": "exhaustive enumeration of every class with <=n elements and every well-founded ordering specification, four views against a reference ordering function",
-        "text": "Every class with up to 4 (quick) / 5 (thorough) elements (fields then 0-2 serialized methods) and every per-element ordering specification from {none, order(-1), order(1), order(999), after=x, before=x for every other x} with acyclic anchors, plus class-level order([...]) permutations, order({...}) overrides and inheritance, is compiled from generated source; the key order of serialize(), of the properties of both schemas and of the GraphQL object type must be the reference permutation (projected on the elements of the view).",
+        "text": "Every class with up to 4 (quick) / 5 (thorough) elements (fields then 0-2 serialized methods) and every per-element ordering specification from {none, order(-1), order(1), order(999), after=x, before=x for every other x} with acyclic anchors, plus class-level order([...]) permutations, order({...}) overrides and inheritance, is compiled from generated source; the key order of serialize(), of the properties of both schemas and of the GraphQL object type must be the reference permutation (projected on the elements of the view). Also: methods with an alias different from their name, anchors absent from a view (skip / init=False), resolver(serialized=True, order=...), and the properties order of definitions merged from both sides.",
         "note": "Cyclic specifications are excluded and counted. The reference function is written from the property statement.",
     },
     {
         "id": "C10", "engine": "E1", "design_ref": "DESIGN.md §5 C10",
         "technique": "exhaustive enumeration of generated validator classes x data states x pass/fail vectors, observing the invoked validators through their side effects, against a reference gating rule",
-        "text": "Every class of the space (3 fields; 1-2 validators, 3 in thorough, each with every non-empty dependency subset read directly / through a method / through a property, kind plain / validator(field) / validator(discard=g), raise / yield / yield-with-path style, with and without inheritance) x every datum assigning each field absent / valid / invalid x every pass/fail vector x {identity, camelCase} aliaser: the exact sequence of validators invoked, the sorted error list and the construction verdict must equal the 25-line reference rule; termination is enforced by a watchdog with recursion limit 300.",
+        "text": "Every class of the space (3 fields; 1-2 validators, 3 in thorough, each with every non-empty dependency subset read directly / through a method / through a property, kind plain / validator(field) / validator(discard=g), raise / yield / yield-with-path style, with and without inheritance) x every datum assigning each field absent / valid / invalid x every pass/fail vector x {identity, camelCase} aliaser: the exact sequence of validators invoked, the sorted error list and the construction verdict must equal the 25-line reference rule; termination is enforced by a watchdog with recursion limit 300. Fields are read directly, through helpers, a property, a functools.cached_property and a diamond of helpers shared by the validators; errors are raised, yielded, yielded with a field path or with the integer path 0; three validators on a reduced alphabet are in the quick tier.",
         "note": "Order between a class and its bases is the library's documented MRO order. Validators are generated source (the dependency finder needs inspect.getsource).",
     },
     {
         "id": "C11", "engine": "E1", "design_ref": "DESIGN.md §5 C11",
         "technique": "exhaustive enumeration of naming configurations (name x alias x override x class aliaser x dynamic aliaser x route) with an 18-view equality oracle against the documented naming formula",
-        "text": "108 generated classes x 3 dynamic aliasers x {parameter, settings} route: the expected external name dyn(class_aliaser(alias or name)) must be the key consumed by deserialize (every other candidate spelling is rejected with missing/unexpected at the right keys), the key emitted by serialize, the entry of properties / required / dependentRequired of both schemas, the loc of structural, field-validator and yielded get_alias errors (plain, nested, flattened), the GraphQL output field, input field and argument names and the loc of a GraphQL argument error.",
+        "text": "108 generated classes x 3 dynamic aliasers x {parameter, settings} route: the expected external name dyn(class_aliaser(alias or name)) must be the key consumed by deserialize (every other candidate spelling is rejected with missing/unexpected at the right keys), the key emitted by serialize, the entry of properties / required / dependentRequired of both schemas, the loc of structural, field-validator and yielded get_alias errors (plain, nested, flattened), the GraphQL output field, input field and argument names and the loc of a GraphQL argument error. Configurations include generic classes reached through a specialisation, dependent_required enforcement / location / schema, and validator locations when another field is structurally invalid.",
         "note": "GraphQL views only for names that are valid GraphQL identifiers.",
     },
     {
         "id": "C12", "engine": "E1", "design_ref": "DESIGN.md §5 C12",
         "technique": "exhaustive enumeration of conversion worlds (graph x placement x source type x context x datum) with a commuting-square oracle on the real code",
-        "text": "For every conversion graph (single, catch_value_error, lazy; two deserializers in both orders, chain, generic, inherited / non-inherited serializer, annotated class, identity bypass) x placement (registered, dynamic, Annotated, field metadata, default_conversion) x source type (int, str, List[int], dataclass) x 9 contexts x every datum of the source pool: deserialize(C[K], d) == map_C(f, deserialize(C[S], d)) with identical rejections and errors, serialize(C[K], v) == serialize(C[U], g(v)), both schemas equal those of the source / target type (plus the class's own schema()/type_name), dynamic conversions must not reach into object fields, identity gives the unconverted behaviour.",
+        "text": "For every conversion graph (single, catch_value_error, lazy; two deserializers in both orders, chain, generic, inherited / non-inherited serializer, annotated class, identity bypass) x placement (registered, dynamic, Annotated, field metadata, default_conversion) x source type (int, str, List[int], dataclass) x 9 contexts x every datum of the source pool: deserialize(C[K], d) == map_C(f, deserialize(C[S], d)) with identical rejections and errors, serialize(C[K], v) == serialize(C[U], g(v)), both schemas equal those of the source / target type (plus the class's own schema()/type_name), dynamic conversions must not reach into object fields, identity gives the unconverted behaviour. Worlds: generic conversions with a bare type variable end, collection-like classes with a registered conversion under dynamic / field conversions, constraints declared next to a conversion (schema agreement).",
         "note": "The implementation on the source/target type is the reference (C01/C04 check it). Schemas under a per-call default_conversion are compared modulo the `default` annotation.",
     },
     {
         "id": "C19", "engine": "E1", "design_ref": "DESIGN.md §5 C19",
         "technique": "bounded exhaustive enumeration of the GraphQL-compatible fragment of the type grammar x values x argument data + source worlds, with graphql-core (validation, execution, input coercion), a type-expression prediction model and the real serialize / deserialize as oracles",
-        "text": "For every object type of the GraphQL-compatible fragment: graphql_schema must build, pass assert_valid_schema and print_schema; every output and input field must have the predicted name and type expression (list / non-null wrapping, Input suffix, named scalars and enums); the full-selection query on every model-built value must equal the reference image (enums by name, omitted fields null); for every datum at <=1 deviation the resolver is invoked iff deserialize accepts the (graphql-core coerced) datum, with an equal value, else a GraphQL error and no call. Worlds: 10 argument signatures (required, default, None, unserialisable, list and object defaults, Undefined, enum default, constrained), interfaces, unions of objects, id_types with and without id_encoding (literal and variable), error handler, aliaser / enum_aliaser.",
+        "text": "For every object type of the GraphQL-compatible fragment: graphql_schema must build, pass assert_valid_schema and print_schema; every output and input field must have the predicted name and type expression (list / non-null wrapping, Input suffix, named scalars and enums); the full-selection query on every model-built value must equal the reference image (enums by name, omitted fields null); for every datum at <=1 deviation the resolver is invoked iff deserialize accepts the (graphql-core coerced) datum, with an equal value, else a GraphQL error and no call. Worlds: 10 argument signatures (required, default, None, unserialisable, list and object defaults, Undefined, enum default, constrained), interfaces, unions of objects, id_types with and without id_encoding (literal and variable), error handler, aliaser / enum_aliaser. Worlds: interface hierarchies, explicit null arguments, parameters around the info parameter, aliased object defaults, JSON scalars holding objects.",
         "note": "Types with Enum members are exempt from the argument check (GraphQL enum inputs are by name), fall_back_on_default shapes too. Known finding: Enum-typed defaults are stored by value.",
     },
 ]
